@@ -306,7 +306,7 @@ func cmdReplay(args []string) int {
 		fmt.Println(l)
 	}
 	if res.Crashed {
-		fmt.Println(lastN(firstPanic(res.CrashText), 3000))
+		fmt.Println(lastN(firstPanic(res.CrashText), 1800))
 	}
 	rule, disc := violationKey(res)
 	if res.Trouble != "" {
